@@ -120,7 +120,7 @@ def spec_decode(b):
 
 
 # ---- the real code ------------------------------------------------------------------------------
-LAYOUTS = [None, None, "stride2", "column", "backwards"]
+LAYOUTS = [None, None, "stride2", "column", "backwards", "unpickled", "explicit_le", "derived_from_unpickled"]
 
 
 def rowid_array(r, layout=None):
@@ -137,6 +137,15 @@ def rowid_array(r, layout=None):
         return m[:, 1]
     if layout == "backwards":
         return np.array(list(reversed(r)), dtype=np.uint32)[::-1]
+    if layout == "unpickled":
+        # an array that came back from a worker process, a cache or a queue: equal dtype, but not the dtype singleton
+        import pickle
+        return pickle.loads(pickle.dumps(a))
+    if layout == "explicit_le":
+        return a.view(np.dtype("<u4"))
+    if layout == "derived_from_unpickled":
+        import pickle
+        return pickle.loads(pickle.dumps(np.concatenate([a, a])))[:len(a)]
     return a
 
 
